@@ -402,6 +402,7 @@ def build(raw, opts=None):
                 params = [rtype(p, ci, own=c) for p in rm["params"]]
                 # a by-value parameter of the class itself is ill-formed; a sole parameter of the class is a copy ctor
                 params = [p for p in params if not (p.kind == "obj" and p.ref is c and p.mode == 0)]
+                params = [Type("obj", mode=2, ref=p.ref) if (p.kind == "obj" and p.mode == 0 and p.ref.get("abstract")) else p for p in params]
                 form = ["user", "default", "delete"][rm["form"]]
                 if form != "user" and params:
                     form = "user"
@@ -715,6 +716,10 @@ def _render(lib, opts):
                 t = m["t"]
                 if m["static"] and m["const"]:
                     lines.append("  static const %s %s = 7;" % (t.cpp(), m["name"]))
+                elif lib.impl_mode and not m["static"]:
+                    init = {"prim": "true" if t.name == "bool" else ("1.5" if t.name in ("float", "double") else "7"), "cstr": '"field"', "str": '"field"',
+                            "obj": "nullptr"}.get(t.kind) or ("::" + t.ref["value_qual"] + t.ref["values"][0][0])
+                    lines.append("  %s %s VF_INIT(%s);" % (t.cpp(), m["name"], init))
                 else:
                     lines.append("  %s%s %s;" % ("static " if m["static"] else "", t.cpp(), m["name"]))
             elif k == "property":
@@ -951,13 +956,23 @@ def render_impl(lib):
                 elif t.kind == "prim":
                     L.append("%s %s::%s = %s;" % (t.cpp(), q, m["name"], "true" if t.name == "bool" else "7"))
                 elif t.kind == "enum":
-                    L.append("%s %s::%s = %s%s;" % (t.cpp(), q, m["name"], t.ref["value_qual"], t.ref["values"][0][0]))
+                    L.append("%s %s::%s = ::%s%s;" % (t.cpp(), q, m["name"], t.ref["value_qual"], t.ref["values"][0][0]))
                 elif t.kind == "cstr":
                     L.append('const char *%s::%s = "static";' % (q, m["name"]))
                 elif t.kind == "str":
                     L.append('std::string %s::%s = "static";' % (q, m["name"]))
                 else:
                     L.append("%s %s::%s = nullptr;" % (t.cpp(), q, m["name"]))
+    L.append('extern "C" {')
+    for c in lib.classes:
+        L.append('__attribute__((visibility("default"))) const char *vf_desc_K%d(const void *p) {' % c["id"])
+        L.append("  static std::string s;")
+        L.append("  const ::%s *o = (const ::%s *)p;" % (c["qname"], c["qname"]))
+        L.append('  s = o == nullptr ? std::string("nil") : vf_o(o) + ":" + std::to_string(o->vf_acc);')
+        L.append("  return s.c_str();")
+        L.append("}")
+    L.append('__attribute__((visibility("default"))) int vf_live_count() { return vf_live(); }')
+    L.append("}")
     for fn in lib.funcs:
         for ov in fn["ovs"]:
             L.append("%s %s {" % (ov["ret"].cpp(), _sig_text(fn["name"], ov, with_defaults=False)))
@@ -969,7 +984,7 @@ def render_impl(lib):
         if t.kind == "prim":
             L.append("%s%s %s = %s;" % ("extern const " if g["const"] else "", t.cpp(), g["name"], "true" if t.name == "bool" else "5"))
         elif t.kind == "enum":
-            L.append("%s%s %s = %s%s;" % ("extern const " if g["const"] else "", t.cpp(), g["name"], t.ref["value_qual"], t.ref["values"][0][0]))
+            L.append("%s%s %s = ::%s%s;" % ("extern const " if g["const"] else "", t.cpp(), g["name"], t.ref["value_qual"], t.ref["values"][0][0]))
         elif t.kind == "cstr":
             L.append('const char *%s = "global";' % g["name"])
         else:
